@@ -47,6 +47,7 @@ def _(self, decoder: Obj("Decoder")):
     # Unconditional half here; "an absent addition consumes nothing" is the presence-guard obligation of
     # pyvc/extras.py::presence_guard_check (the arithmetic version made the solver diverge)
     requires(self.additions is not None)
+    opaque("ld_size", "ld_val", "ld_bad", "nsn_size", "nsn_val")
     forget("bits_val", "is_bitstr")
     raises(DecodeError)
     raises(UnicodeDecodeError)
